@@ -268,3 +268,50 @@ def write_sg_star(path, F, halfset, motl_idx, order=None, nl="\n", sep="\t", num
         for r in range(n):
             f.write(sep.join(cols[name][r] for name in order) + nl)
         f.write(nl)
+
+
+def foreign_halfset(rng, ids, style):
+    """halfset letters as a list loaded from STOPGAP may carry them (not necessarily the parity of subtomo_num)."""
+    par = parity_halfset(ids)
+    n = len(par)
+    if style == "parity":
+        return par
+    if style == "inverted":
+        return ["B" if h == "A" else "A" for h in par]
+    if style == "all_A":
+        return ["A"] * n
+    if style == "all_B":
+        return ["B"] * n
+    if style == "random":
+        return [("A", "B")[int(v)] for v in rng.integers(0, 2, n)]
+    raise ValueError(style)
+
+
+def foreign_motl_idx(rng, ids, style):
+    """motl_idx values as STOPGAP itself writes them: in general unrelated to subtomo_num."""
+    n = len(ids)
+    if style == "ids":
+        return np.asarray(ids, dtype=float)
+    if style == "1..N":
+        return np.arange(1, n + 1, dtype=float)
+    if style == "shuffled":
+        return rng.permutation(np.arange(1, n + 1)).astype(float)
+    if style == "offset":
+        return np.arange(1, n + 1, dtype=float) + float(rng.integers(1, 5000))
+    if style == "unrelated":
+        return rng.choice(np.arange(1, 20 * n + 100), n, replace=False).astype(float)
+    raise ValueError(style)
+
+
+def sg_frame(F, halfset, motl_idx, order=None, int_cols=False):
+    """A STOPGAP-form DataFrame built from plain arrays (no cryoCAT code)."""
+    import pandas as pd
+    d = {sgk: np.array(F[em], dtype=float, copy=True) for em, sgk in PAIRS}
+    d["motl_idx"] = np.array(motl_idx, dtype=float, copy=True)
+    d["halfset"] = list(halfset)
+    if int_cols:
+        for k in ("motl_idx", "tomo_num", "object", "subtomo_num", "class"):
+            if np.all(d[k] == np.round(d[k])) and np.all(np.abs(d[k]) < 2.0 ** 53):
+                d[k] = d[k].astype(np.int64)
+    order = list(order) if order is not None else list(SG_CANON)
+    return pd.DataFrame({k: d[k] for k in order}, columns=order)
